@@ -1,13 +1,19 @@
 ------------------------------ MODULE T_Syntax ------------------------------
 (* Trace validation for C14 (code -> spec).  The trace file holds               *)
-(*   segs : one record per segment node of a shipped map that carries syntax    *)
-(*          notes:  [map, path, idx, n (element count of the node), mode,       *)
-(*                   notes : <<[text, stype, spos]>>, cases : <<case>>]         *)
-(*          text = the note as written in the map XML; stype/spos = what the     *)
-(*          real segment_if._split_syntax made of it while the map was loaded.   *)
+(*   segs : one record per segment node of a shipped map for which the map XML  *)
+(*          writes syntax notes or whose loaded node enforces any:              *)
+(*            [mode, xnotes : <<text>>, enf : <<[stype, spos]>>, cols : <<Nat>>,*)
+(*             cases : <<case>>]                                                *)
+(*          xnotes = the notes as WRITTEN in the map XML (read from the file     *)
+(*          independently of pyx12's loader, surrounding white space removed):   *)
+(*          these are the notes the segment is judged by.                        *)
+(*          enf = what the loaded segment node really enforces (node.syntax as   *)
+(*          built by the real loader / segment_if._split_syntax).                *)
+(*          cols = the entries of enf whose is_syntax_valid verdict is logged    *)
+(*          in the cases (all of them in mode "full").                           *)
 (*   case : [len (number of elements of the data segment), pr (positions that    *)
 (*           carry a non-empty value), fill,                                     *)
-(*           syn : <<"ok"|"viol"|"exc">>  is_syntax_valid per note,              *)
+(*           syn : <<"ok"|"viol"|"exc">>  is_syntax_valid per entry of cols,     *)
 (*           and when mode = "full" and chk (the node can validate the segment   *)
 (*           at all, i.e. the call with the notes switched off did not raise):   *)
 (*           valid : "true"|"false"|"exc"  result of segment_if.is_valid,        *)
@@ -15,10 +21,15 @@
 (*                   off (what the other validations alone say),                 *)
 (*           errs  : <<[c, p]>> element errors that the notes added (code,       *)
 (*                   position) ]                                                 *)
-(* One TLC state per segment record; every case of the record is judged against  *)
-(* the definition (Syntax.tla).  Verdicts are total: a mismatch is collected     *)
-(* with its failing clause (at most 5 examples per clause and note type) and     *)
-(* validation goes on; the report is printed once at the end.                    *)
+(* One TLC state per segment record.  Per record: every well-formed note of the  *)
+(* XML must be enforced by the loaded node with the type and positions the       *)
+(* definition reads from its text (else "note_not_loaded"), and the node must    *)
+(* enforce nothing else (else "split"); every case of the record is judged       *)
+(* against the definition (Syntax.tla) applied to the notes of the XML.          *)
+(* Verdicts are total: a mismatch is collected with its failing clause (at most  *)
+(* 5 examples per clause and note type) and validation goes on; the report is    *)
+(* printed once at the end.  In a reject <<i, k, j, clause, type>> j is the      *)
+(* index of the XML note, or Len(xnotes) + index into enf for clause "split".    *)
 EXTENDS Syntax, Json, IOUtils
 VARIABLES i, rej, nrej, ncase, nnote
 
@@ -26,29 +37,39 @@ T == JsonDeserialize(IOEnv.TRACE_FILE)
 Segs == T.segs
 vars == <<i, rej, nrej, ncase, nnote>>
 
-Defs(r) == Concrete([j \in 1..Len(r.notes) |-> SplitNote(r.notes[j].text)])
+Defs(r) == Concrete([j \in 1..Len(r.xnotes) |-> SplitNote(r.xnotes[j])])
 MinOf(S) == CHOOSE x \in S : \A y \in S : x <= y
 CountSeq(s, P(_)) == Cardinality({x \in DOMAIN s : P(s[x])})
 
-(* the note text as parsed by the code against the definition of the text form *)
-SplitRej(r, D) ==
-  {<<0, j, "split", D[j].type>> : j \in {x \in 1..Len(r.notes) :
-        D[x].ok /\ (D[x].type # r.notes[x].stype \/ D[x].pos # r.notes[x].spos)}}
+(* the XML notes (by definition of the text form) an enforced entry stands for *)
+Same(d, e) == d.ok /\ d.type = e.stype /\ d.pos = e.spos
+NotesOf(D, e) == {j \in 1..Len(D) : Same(D[j], e)}
+EnfOf(r, d) == {y \in 1..Len(r.enf) : Same(d, r.enf[y])}
 
-(* is_syntax_valid per note *)
+(* every well-formed note written in the XML is enforced by the loaded node (as often as it is written) *)
+LoadRej(r, D) ==
+  {<<0, j, "note_not_loaded", D[j].type>> : j \in {x \in 1..Len(D) :
+        D[x].ok /\ Cardinality(EnfOf(r, D[x])) < Cardinality({z \in 1..Len(D) : D[z] = D[x]})}}
+(* the loaded node enforces nothing but the notes of the XML, split as the definition of the text form says *)
+SplitRej(r, D) ==
+  {<<0, Len(D) + y, "split", r.enf[y].stype>> : y \in {x \in 1..Len(r.enf) :
+        Cardinality(NotesOf(D, r.enf[x])) < Cardinality({z \in 1..Len(r.enf) : r.enf[z] = r.enf[x]})}}
+
+(* is_syntax_valid per logged enforced entry, judged as the XML note it stands for *)
 SynRej(r, D, k) ==
   LET c == r.cases[k] IN
-  {<<k, j, cl, D[j].type>> : <<j, cl>> \in
-     {<<j, cl>> \in (1..Len(r.notes)) \X {"exception", "missed", "false_alarm"} :
-        /\ D[j].ok
-        /\ LET v == Violated(D[j].type, D[j].pos, Range(c.pr), c.len) IN
-           \/ cl = "exception" /\ c.syn[j] = "exc"
-           \/ cl = "missed" /\ v /\ c.syn[j] = "ok"
-           \/ cl = "false_alarm" /\ ~v /\ c.syn[j] = "viol"}}
+  {<<k, MinOf(NotesOf(D, r.enf[r.cols[e[1]]])), e[2], r.enf[r.cols[e[1]]].stype>> : e \in
+     {<<x, cl>> \in (1..Len(r.cols)) \X {"exception", "missed", "false_alarm"} :
+        /\ NotesOf(D, r.enf[r.cols[x]]) # {}
+        /\ LET d == D[MinOf(NotesOf(D, r.enf[r.cols[x]]))]
+               v == Violated(d.type, d.pos, Range(c.pr), c.len) IN
+           \/ cl = "exception" /\ c.syn[x] = "exc"
+           \/ cl = "missed" /\ v /\ c.syn[x] = "ok"
+           \/ cl = "false_alarm" /\ ~v /\ c.syn[x] = "viol"}}
 
 (* the element errors and the verdict of segment_if.is_valid *)
 ValidClause(r, D, c) ==
-  LET N    == Len(r.notes)
+  LET N    == Len(D)
       viol == {j \in 1..N : Violated(D[j].type, D[j].pos, Range(c.pr), c.len)}
       errs == c.errs
       HasCode(code) == CountSeq(errs, LAMBDA e : e.c = code)
@@ -66,15 +87,15 @@ ValidClause(r, D, c) ==
      ELSE ""
 ValidRej(r, D, k) ==
   LET c == r.cases[k] IN
-  IF r.mode # "full" \/ ~c.chk \/ ~(\A j \in 1..Len(r.notes) : D[j].ok) THEN {}
+  IF r.mode # "full" \/ ~c.chk \/ ~(\A j \in 1..Len(D) : D[j].ok) THEN {}
   ELSE LET cl == ValidClause(r, D, c)
-           viol == {j \in 1..Len(r.notes) : Violated(D[j].type, D[j].pos, Range(c.pr), c.len)}
+           viol == {j \in 1..Len(D) : Violated(D[j].type, D[j].pos, Range(c.pr), c.len)}
            j == IF viol = {} THEN 1 ELSE MinOf(viol)
-       IN IF cl = "" THEN {} ELSE {<<k, j, cl, D[j].type>>}
+       IN IF cl = "" THEN {} ELSE {<<k, j, cl, IF D = <<>> THEN "" ELSE D[j].type>>}
 
 RecRej(r) ==
   LET D == Defs(r) IN
-  SplitRej(r, D) \cup UNION {SynRej(r, D, k) \cup ValidRej(r, D, k) : k \in 1..Len(r.cases)}
+  LoadRej(r, D) \cup SplitRej(r, D) \cup UNION {SynRej(r, D, k) \cup ValidRej(r, D, k) : k \in 1..Len(r.cases)}
 
 (* keep at most 5 examples per (clause, type): one per record and class *)
 Class(e) == <<e[4], e[5]>>
@@ -92,7 +113,7 @@ Step == /\ i <= Len(Segs)
            IN /\ rej' = Keep(rej, new)
               /\ nrej' = nrej + Cardinality(new)
               /\ ncase' = ncase + Len(r.cases)
-              /\ nnote' = nnote + Len(r.cases) * Cardinality({j \in 1..Len(r.notes) : SplitNote(r.notes[j].text).ok})
+              /\ nnote' = nnote + Len(r.cases) * Len(r.cols) + Len(r.xnotes) + Len(r.enf)
         /\ i' = i + 1
 Done == i > Len(Segs)
 Next == Step
